@@ -1,4 +1,5 @@
 import GlmVerif.Sem.Family
+import GlmVerif.Sem.NanWalk
 import GlmVerif.Spec.C01
 import GlmVerif.Gen.C01
 import GlmVerif.Props.C01.All
@@ -31,7 +32,7 @@ theorem sameLeaf_sound {R : Type} [CommRing R] {o : Ops R} (ho : RingLike o) (en
 length, component and input; in every ring-like semantics (where `fma(a,b,c) = a*b + c`). -/
 theorem vector_eq_scalar {R : Type} [CommRing R] {o : Ops R} (ho : RingLike o)
     (hfma : ∀ a b c, o.call3 .fma a b c = o.add (o.mul a b) c)
-    (f : RelFamily) (hf : f ∈ relFamilies) (m : Nat) (hm : m ∈ f.masks) (L : Nat) (hL : L ∈ f.lens)
+    (f : RelFamily) (hf : f ∈ relFamilies) (hw : f.walk = false) (m : Nat) (hm : m ∈ f.masks) (L : Nat) (hL : L ∈ f.lens)
     (i : Nat) (hi : i < L) (env : Nat → R) :
     ((lookup f.vUnit [m, L]).out i).eval o env
       = ((lookup f.sUnit []).out 0).eval o (fun k => env (sigma m L i k)) := by
@@ -42,12 +43,48 @@ theorem vector_eq_scalar {R : Type} [CommRing R] {o : Ops R} (ho : RingLike o)
   have h2 := h1 m hm L hL
   simp only [RelFamily.okAt, Bool.and_eq_true, List.all_eq_true, List.mem_range] at h2
   have h3 := h2.2 i hi
+  rw [if_neg (by simp [hw])] at h3
   rw [← Tree.eval_rename o env (sigma m L i) ((lookup f.sUnit []).out 0)]
   split at h3
   · rw [← Tree.eval_expandFma o hfma env ((lookup f.vUnit [m, L]).out i),
         ← Tree.eval_expandFma o hfma env (((lookup f.sUnit []).out 0).rename (sigma m L i))]
     exact treeOK_sound ho env (sameLeaf_sound ho env) h3
   · exact treeOK_sound ho env (sameLeaf_sound ho env) h3
+
+/-- **vector overload = scalar overload per component, walk class** (the NaN-aware selections `fmin`/`fmax` of three and four
+arguments, whose two overloads test for NaN in different orders): for every input — NaN included — the two decision trees select the
+same value, in **every** semantics in which a comparison with a NaN operand is false (`NanLike`, IEEE 754 §5.11; no other
+assumption on the carrier, the operations or the order). -/
+theorem vector_eq_scalar_walk {α : Type} {o : Ops α} (hn : NanLike o)
+    (f : RelFamily) (hf : f ∈ relFamilies) (hw : f.walk = true) (m : Nat) (hm : m ∈ f.masks) (L : Nat) (hL : L ∈ f.lens)
+    (i : Nat) (hi : i < L) (env : Nat → α) :
+    ((lookup f.vUnit [m, L]).out i).eval o env
+      = ((lookup f.sUnit []).out 0).eval o (fun k => env (sigma m L i k)) := by
+  have h := rel_all_ok
+  simp only [List.all_eq_true] at h
+  have h1 := h f hf
+  simp only [RelFamily.ok, List.all_eq_true] at h1
+  have h2 := h1 m hm L hL
+  simp only [RelFamily.okAt, Bool.and_eq_true, List.all_eq_true, List.mem_range] at h2
+  have h3 := h2.2 i hi
+  rw [if_pos hw] at h3
+  rw [← Tree.eval_rename o env (sigma m L i) ((lookup f.sUnit []).out 0)]
+  obtain ⟨path, _, hl⟩ := treeEqv_sound (impliedNan_sound hn env) _ _ h3 (by intro cb hcb; cases hcb)
+  rw [Tree.eval_eq_select o env ((lookup f.vUnit [m, L]).out i),
+      Tree.eval_eq_select o env (((lookup f.sUnit []).out 0).rename (sigma m L i))]
+  rw [eq_of_beq hl]
+
+/-- non-vacuity of `NanLike`: the naturals with one NaN adjoined -/
+def natNanOps : Ops (Option Nat) :=
+  { lit := fun n _ => some n.toNat, konst := fun _ => none, add := fun a _ => a, sub := fun a _ => a, mul := fun a _ => a, div := fun a _ => a,
+    neg := id, call1 := fun _ a => a, call2 := fun _ a _ => a, call3 := fun _ a _ _ => a, band := fun a _ => a, bor := fun a _ => a,
+    bxor := fun a _ => a, bnot := id, shl := fun a _ => a, shr := fun a _ => a, imod := fun a _ => a, cast := fun _ a => a,
+    lt := fun a b => match a, b with | some x, some y => decide (x < y) | _, _ => false
+    le := fun a b => match a, b with | some x, some y => decide (x ≤ y) | _, _ => false
+    eq := fun a b => match a, b with | some x, some y => decide (x = y) | _, _ => false
+    isnan := fun a => a.isNone, isinf := fun _ => false }
+example : NanLike natNanOps := by
+  constructor <;> intro x y h <;> cases x <;> cases y <;> simp_all [natNanOps]
 
 /-- operators, compound assignments, unary minus, increments: every component is the built-in operator
 applied to the operands' components (`syn`: literally; `+`,`*`: up to commuting the operands) -/
@@ -68,7 +105,7 @@ theorem relational_correct {R : Type} [CommRing R] {o : Ops R} (ho : RingLike o)
   Family.tree_syn_sound ho (all_ok f hf) htm hw hk hks hj env
 
 /-- non-vacuity: the clamp units branch, and the table covers 37 functions -/
-example : relFamilies.length = 44 ∧ ((lookup "v_clamp" [7, 4]).out 3).leaves.length > 1 ∧
+example : relFamilies.length = 61 ∧ ((lookup "v_clamp" [7, 4]).out 3).leaves.length > 1 ∧
     ((lookup "s_clamp" []).out 0).leaves.length > 1 := by decide +kernel
 
 end Glm.Props.C01
